@@ -266,6 +266,7 @@ def _emit_multiline_list(value: ListValue, indent: int = 0) -> str:
     close_indent_str = "  " * indent
 
     parts: list[str] = []
+    lone_bare_pair: tuple[str, str] | None = None
     for item in value.items:
         if is_absent(item):
             continue
@@ -285,12 +286,20 @@ def _emit_multiline_list(value: ListValue, indent: int = 0) -> str:
             # parts, emitting a blank line that breaks emit-parse idempotency.
             if inline_pairs:
                 parts.append(",".join(inline_pairs))
+                if len(inline_pairs) == 1 and isinstance(v, str) and "∧" in v_str and not v_str.startswith('"'):
+                    lone_bare_pair = (k, v_str)
         else:
             parts.append(emit_value(item, indent + 1))
 
     # GH#267 fix: if all items were filtered (Absent), return empty array
     if not parts:
         return "[]"
+
+    if len(parts) == 1 and lone_bare_pair is not None:
+        # A list holding one k::v pair whose bare value contains the constraint operator has no
+        # top-level comma and would be re-read as a holographic pattern: quote the value
+        # (bare expressions hold no quote or backslash to escape).
+        parts[0] = f'{lone_bare_pair[0]}::"{lone_bare_pair[1]}"'
 
     # Build multi-line output: opening [, items with trailing commas, closing ]
     lines = ["["]
